@@ -111,6 +111,15 @@ func watchdog(limit time.Duration, f func()) (hang int, pnc string) {
 	}
 }
 
+// errText: the full error chain as text (the library wraps its causes), cut to a manageable length.
+func errText(err error) string {
+	s := fmt.Sprintf("%+v", err)
+	if len(s) > 400 {
+		s = s[:400]
+	}
+	return s
+}
+
 func crc(s string) []int {
 	h := crc32.ChecksumIEEE([]byte(s))
 	return []int{int(h >> 16), int(h & 0xFFFF)}
@@ -177,7 +186,7 @@ func fillDefaults(op string, o map[string]interface{}) {
 		def = map[string]interface{}{"err": 0, "cw": []int{}, "cwerr": 0, "w": 0, "h": 0, "rows": [][]int{}}
 	case "hl":
 		def = map[string]interface{}{"cwerr": 0, "cw": []int{}, "dtext": []int{}, "derr": "skipped", "werr": 0, "w": 0, "h": 0,
-			"rtext": []int{}, "rerr": "skipped", "rfmt": 0, "utf8": []int{}}
+			"rtext": []int{}, "rerr": "skipped", "rfmt": 0, "utf8": []int{}, "cwmsg": ""}
 	case "ecc":
 		def = map[string]interface{}{"err": 0, "all": []int{}}
 	case "place":
@@ -217,8 +226,9 @@ func doHL(e *in, o map[string]interface{}) {
 	text := str(e)
 	o["utf8"] = hlib.BytesToInts(text)
 	cw, err := dmenc.EncodeHighLevel(text, shapes[e.Shape], dim(e.Mn), dim(e.Mx))
+	o["cwmsg"] = ""
 	if err != nil {
-		o["cwerr"], o["cw"] = 1, []int{}
+		o["cwerr"], o["cw"], o["cwmsg"] = 1, []int{}, errText(err)
 	} else {
 		o["cwerr"], o["cw"] = 0, hlib.BytesToInts(string(cw))
 		dr, derr := dmdec.DecodedBitStreamParser_decode(cw)
